@@ -103,7 +103,8 @@ Section Powi2.
     destruct (Z.eqb_spec (Z.rem e 2) 0) as [E|E].
     - destruct (Hev E) as [Ee Hj]. set (j := Z.quot e 2) in *.
       pose proof (IH d j r Hd H Hj) as IHr.
-      rewrite Ee. apply (mag_even _ (Z.abs d)); try lia.
+      rewrite Ee. apply (mag_even (Z.abs x) (Z.abs d) (Z.abs r) ONE j);
+        [exact H1|apply Z.abs_nonneg|apply Z.abs_nonneg|apply Z.abs_nonneg|exact Hj|exact HD|exact IHr].
     - destruct (Hod E) as [Ee Hj]. set (j := Z.quot (e - 1) 2) in *.
       destruct (ppow_go f k d j) as [b| |] eqn:Eb; cbn [bind] in H; try discriminate.
       apply (exact_or_none_inv f) in H. destruct H as [Er _].
@@ -113,7 +114,8 @@ Section Powi2.
       { destruct Hj as [E3|]; [|assumption]. unfold j. rewrite E3. reflexivity. }
       pose proof (IH d j b Hd Eb Hj1) as IHb.
       rewrite Ee. replace (2 * j + 1 - 1) with (2 * j) by lia.
-      apply (mag_odd _ (Z.abs d) _ (Z.abs b)); try lia.
+      apply (mag_odd (Z.abs x) (Z.abs d) (Z.abs r) (Z.abs b) ONE j);
+        [exact H1|apply Z.abs_nonneg|apply Z.abs_nonneg|apply Z.abs_nonneg|apply Z.abs_nonneg|exact Hj1|exact HD|exact IHb|exact HR].
   Qed.
 
   (* what the code does for a negative exponent *)
